@@ -27,6 +27,7 @@ Menu == UNION {
                         "dataclass", "frozen_dataclass", "namedtuple", "exception", "oserror",
                         "custom_exception", "ordereddict", "defaultdict", "deque", "counter", "range", "slice",
                         "uuid", "path", "partial", "bound_method", "simplenamespace", "getnewargs", "interned_newargs",
+                        "newargs_ex_args", "newargs_ex_kwargs", "newargs_ex_kwonly",
                         "reduce_class", "getstate_class", "kwgetstate_class", "array"}, TRUE, TRUE, FALSE),
         \* __slots__ without __getstate__: pickle raises TypeError at protocols 0 and 1
         MenuOf("inst", {"slots_class", "slots_dataclass"}, TRUE, TRUE, TRUE),
@@ -59,8 +60,9 @@ Ent(tp, n, X, i) ==
 Mk(n, tp, kind, X, noss, nods) ==
   [g |-> [i \in 1..n |-> [kind |-> kind[i], ent |-> Ent(tp, n, X, i), ss |-> i # noss, ds |-> i # nods, fs |-> "no"]], tp |-> tp]
 \* one opt-in leaf whose __getstate__ returns a falsy state that is not None: {} | 0 | () | '' | False
-FsKinds == {"d0", "i0", "t0", "s0", "b0"}
-WithFs(s, i, k) == [s EXCEPT !.g[i].fs = k, !.g[i].ds = (k = "d0")]
+\* ... or whose class re-creates it through __getnewargs_ex__ (state {}): args only | args and kwargs | kwargs only
+FsKinds == {"d0", "i0", "t0", "s0", "b0", "xa", "xk", "xo"}
+WithFs(s, i, k) == [s EXCEPT !.g[i].fs = k, !.g[i].ds = (k \in {"d0", "xa", "xk", "xo"})]
 FalsyOf(S) == UNION {{WithFs(s, i, k) : i \in {x \in 1..Len(s.g) : s.g[x].kind = "opt" /\ s.g[x].ent = <<>> /\ s.g[x].ss /\ s.g[x].ds},
                                         k \in FsKinds} : s \in S}
 \* containers hold something; the node without __setstate__ / with a non-dict state is an opt-in one
